@@ -697,7 +697,7 @@ class NF(object):
                 p.conds.append((Atom(("t", "loop#%d iterates" % k)), True))
                 if isinstance(st.iter, ast.Call) and isinstance(st.iter.func, ast.Name) and st.iter.func.id == "enumerate" and len(st.iter.args) == 1 \
                         and not st.iter.keywords and isinstance(st.target, ast.Tuple) and isinstance(st.target.elts[0], ast.Name):
-                    p.conds.append((Atom(("<", "%s@loop%d" % (st.target.elts[0].id, k), "0")), False))
+                    p.conds.append(atom(ast.Compare(left=ast.Name(id="%s@loop%d" % (st.target.elts[0].id, k), ctx=ast.Load()), ops=[ast.Lt()], comparators=[ast.Constant(value=0)]), False))
                 iters = [p]
             saved = self.done
             self.done = []
